@@ -69,12 +69,12 @@ def nontrivial(req, ans):
 
 
 SPEC = {
-    "tables": ["MacroMethods"],
+    "tables": ["MacroMethods", "OpenQasmTemplates", "CQasmTemplates"],
     "props_module": PROPS_MODULE,
     "required": ["macro_propagates", "macro_returns_first_error", "builder_model_is_reference", "builder_atomic",
                  "builder_accepts_iff", "builder_appends", "builder_errors", "builder_never_panics", "builder_sequences",
                  "no_panic_partial", "no_panic_reexecute_partial", "exec_either_representation_partial",
-                 "reps_same_constructor_partial",
+                 "reps_same_constructor_partial", "exports_never_panic_partial", "export_input_is_the_circuit", "openqasm_table_is_current",
                  "neg_zero_shots", "neg_repeated_qubit", "measure_all_short_same_error", "peek_all_long_same_error",
                  "measure_all_len_rejected_identically", "neg_cbit_ge_64",
                  "neg_controls_gt_64", "cond_arity_same_error", "gate_arity_rejected_identically", "neg_empty_operands_export",
@@ -91,7 +91,7 @@ SPEC = {
             "= bound, just above, 1000, 2^40, 2^63, usize::MAX; operand lists of the right length, empty, one short, one/two/three long, "
             "distinct, with a forced repetition, out of range; control lists incl. the whole register; targets up to u64::MAX; half of the "
             "sequences Clifford-only; one gate in eight is a Composite / Loop (0-4 iterations) of library gates built by Composite::add_gate or Composite::from_string, with sub-gates on local indices >= width, repeated or mis-sized; a sibling stream calls every sibling method (measure/peek/_x/_y/_z/_basis; measure_all/peek_all/_basis; reset/h/../u3/add_gate/add_conditional_gate/barrier/cx) with the SAME boundary arguments (bound-1, bound, bound+1, 62..65, usize::MAX; descending lists; nr_cbits = 63/64/65; control lists of exactly nr_cbits bits). Every call under catch_unwind: outcome (ok / error constructor + payload / PANIC) and, after a "
-            "failed call, whether Circuit::verif_nr_ops(), the three exports and is_stabilizer_circuit() are unchanged; the final number of operations. Then open_qasm / c_qasm / latex (class), "
+            "failed call, whether every public query of the object (nr_qbits, nr_cbits, is_stabilizer_circuit, verif_nr_ops, the three exports) is unchanged; the final number of operations. Then open_qasm / c_qasm / latex (class), "
             "execute_with on QuStateRepr::vector and ::stabilizer, reexecute after each (also after an error inside a run), and execute_with(vector) once more on the same object, with 0/1/2/3/5 shots: every traced operation is re-run by "
             "the Lean model from the implementation's own pre-state with its logged draws (step lines), the failing operation too. "
             "Macro stream: 46 compiled circuit! invocations, one per builder method with a failing call in the middle (arguments count "
@@ -154,9 +154,11 @@ def run(ctx):
         "follows for n <= 2 and C03's gate set from TableauFinite.{gates,measure,reset}_exhaustive), the lift `StabLiftObligation` "
         "from tableaux to StabilizerState is not proved; the record is "
         "validated by the correspondence run (every traced operation of every stabilizer run), not proved",
-        "exporters: that a WellFormed circuit is exported without a panic is NOT proved; the outcome class of open_qasm / c_qasm is "
-        "compared with a class predicate written from the exporter code (Model/ExportClass.lean), of latex with the C13 model; "
-        "the QASM text is C11/C12",
+        "exports_never_panic_partial covers open_qasm and c_qasm (statements about the exporter models of C11 / C12 on the image "
+        "`ofCirc` of the built circuit, under WellFormed); for latex() no-panic is NOT proved (the C13 model needs more invariants "
+        "than `Shape`; nested Loops of >= 3 iterations do panic): its outcome is compared with the C13 model by the correspondence "
+        "run only. In the driver the implementation's open_qasm / c_qasm outcome class is compared with the C11 / C12 models "
+        "themselves, and the fast classifier Model/ExportClass.lean is cross-checked against them on every generated circuit",
         "the register sizes generated stay below 5 qubits (allocation aborts such as 1<<60 qubits are outside the run)",
         "matrix-mode gate routes on a REPEATED qubit: the model stops where Rust asserts on the total element count; with an even "
         "number of ranges the implementation goes on with garbage (accepted as `panic-or-garbage`, inside the dup-qubits class)",
